@@ -44,34 +44,35 @@ type fakeProc struct {
 	script    fakeScript
 	anonymous bool // thread labels do not mention test names (map-order independence)
 
-	mu            sync.Mutex // real mutex, never held across a gate or a blocking operation
-	inbuf         []byte
-	msgsWritten   int // request messages whose prefix was written
-	received      []string
-	outstanding   int
-	emitted       map[string]int
-	emittedN      int
-	lastAnswer    []byte
-	faultDone     bool
-	stalled       bool
-	stdinClosed   bool // closed by the runner
-	stdinBroken   bool // closed from the client's side
-	exited        bool
-	exitErr       error
-	aborted       bool
-	done          chan struct{}
-	outbuf        []byte
-	outClosed     bool
-	outNotify     chan struct{}
-	emitLog       []byte
-	blockedWrites int
-	faultBytes    bool           // some scripted fault wrote bytes to stdout
-	clean         map[string]int // answers emitted while the output stream was still well-formed
-	preanswered   string
-	outBusy       bool // an answer is on its way out in pieces: nothing else may write to the output in between
-	pendSet       bool // SyncStdin: a Write is waiting to be taken
-	pend          []byte
-	pendCh        chan fakeWriteRes
+	mu             sync.Mutex // real mutex, never held across a gate or a blocking operation
+	inbuf          []byte
+	msgsWritten    int // request messages whose prefix was written
+	received       []string
+	outstanding    int
+	emitted        map[string]int
+	emittedN       int
+	lastAnswer     []byte
+	lastAnswerName string
+	faultDone      bool
+	stalled        bool
+	stdinClosed    bool // closed by the runner
+	stdinBroken    bool // closed from the client's side
+	exited         bool
+	exitErr        error
+	aborted        bool
+	done           chan struct{}
+	outbuf         []byte
+	outClosed      bool
+	outNotify      chan struct{}
+	emitLog        []byte
+	blockedWrites  int
+	faultBytes     bool           // some scripted fault wrote bytes to stdout
+	clean          map[string]int // answers emitted while the output stream was still well-formed
+	preanswered    string
+	outBusy        bool // an answer is on its way out in pieces: nothing else may write to the output in between
+	pendSet        bool // SyncStdin: a Write is waiting to be taken
+	pend           []byte
+	pendCh         chan fakeWriteRes
 }
 
 type fakeWriteRes struct {
@@ -301,6 +302,9 @@ func (fp *fakeProc) doFault() {
 		doExit = true
 	case "dup":
 		if fp.lastAnswer != nil {
+			// the client did put a second answer of that name on its output: if the runner has sent the
+			// name again meanwhile, it cannot tell this answer from one to the second request
+			fp.emitted[fp.lastAnswerName]++
 			fp.emitLocked(fp.lastAnswer)
 		}
 	case "unknown":
@@ -495,6 +499,7 @@ func (fp *fakeProc) consume(p []byte) {
 				return
 			}
 			fp.lastAnswer = b
+			fp.lastAnswerName = req.TestName
 			fp.emitted[req.TestName]++
 			if !fp.faultBytes {
 				fp.clean[req.TestName]++
